@@ -171,7 +171,7 @@ def check_passthrough(ctx, fb, cfg):
     it = fb.need("rln::public::RLN::set_leaves_from")
     ctx.touch(it)
     eng = Engine(fb, inline=opq)
-    oks = [p for p in eng.run(it) if p.kind == "return" and known_ok(eng.value_of(p.store, p.ret)) is True]
+    oks = [p for p in eng.run(it) if p.kind == "return" and known_ok(eng.value_of(p.store, p.ret)) is not False]
     why = "expected one success path, found %d" % len(oks)
     ok = False
     if len(oks) == 1:
@@ -186,7 +186,7 @@ def check_passthrough(ctx, fb, cfg):
     it = fb.need("rln::public::RLN::init_tree_with_leaves")
     ctx.touch(it)
     eng = Engine(fb, inline=opq)
-    oks = [p for p in eng.run(it) if p.kind == "return" and known_ok(eng.value_of(p.store, p.ret)) is True]
+    oks = [p for p in eng.run(it) if p.kind == "return" and known_ok(eng.value_of(p.store, p.ret)) is not False]
     ok = False
     why = "expected one success path, found %d" % len(oks)
     if len(oks) == 1:
@@ -212,7 +212,7 @@ def check_passthrough(ctx, fb, cfg):
     it = fb.need("rln::public::RLN::atomic_operation")
     ctx.touch(it)
     eng = Engine(fb, inline=opq)
-    oks = [p for p in eng.run(it) if p.kind == "return" and known_ok(eng.value_of(p.store, p.ret)) is True]
+    oks = [p for p in eng.run(it) if p.kind == "return" and known_ok(eng.value_of(p.store, p.ret)) is not False]
     ok = False
     why = "expected one success path, found %d" % len(oks)
     if len(oks) == 1:
